@@ -147,7 +147,22 @@ class Sym:
             return o
         if o.is_const(1):
             return self
+        # real-sound for EVERY real a (Real.sqrt a = 0 for a < 0): a * sqrt(a)^k = sqrt(a)^(k+2), k >= 1.  Codes write r^3 as
+        # r**3, r2**1.5 or r2*sqrt(r2); folding them into one shape keeps the sqrt value an atom of the algebraic identities.
+        for x, y in ((self, o), (o, self)):
+            k = y._sqrt_power_of(x)
+            if k:
+                r = y if k == 1 else y.args[0]
+                return r ** (k + 2)
         return Sym("mul", (self, o), self.val * o.val)
+
+    def _sqrt_power_of(self, a):
+        """k >= 1 if self is sqrt(a)^k for exactly the node a, else 0"""
+        if self.op == "sqrt" and self.args[0] is a:
+            return 1
+        if self.op == "pow" and self.args[0].op == "sqrt" and self.args[0].args[0] is a:
+            return int(self.args[1])
+        return 0
 
     def __rmul__(self, o):
         return Sym.lift(o).__mul__(self)
@@ -182,7 +197,12 @@ class Sym:
     def __pos__(self):
         return self
 
+    ABS_AS_SQRT = False
+
     def __abs__(self):
+        if Sym.ABS_AS_SQRT:
+            # |a| = sqrt(a^2) for every real a: no case split, and `a**2 * abs(a)` folds to sqrt(a^2)^3 like `(a**2)**1.5`
+            return (self ** 2).sqrt()
         # decided concretely, recorded as a path condition
         if self < 0:
             return -self
@@ -668,6 +688,37 @@ def retarget(fn, extra=None, _memo=None, shim=None):
     if "prange" in names:
         g.setdefault("prange", range)
     return new
+
+
+class Proxy:
+    """stand-in for `self` of a library class when one of its methods is traced: attributes listed in `values` (symbolic data, stubs)
+    win; everything else is looked up on the REAL class -- plain methods and properties are retargeted copies bound to this proxy, so
+    helper methods the traced method calls on `self` (also ones introduced by a later refactor) are traced through."""
+
+    def __init__(self, cls, values=None, extra=None, shim=None, _memo=None):
+        object.__setattr__(self, "_p", (cls, dict(values or {}), extra, shim, _memo if _memo is not None else {}))
+
+    def __getattr__(self, name):
+        import inspect
+        cls, values, extra, shim, memo = object.__getattribute__(self, "_p")
+        if name in values:
+            return values[name]
+        try:
+            attr = inspect.getattr_static(cls, name)
+        except AttributeError:
+            raise AttributeError("%s proxy has no attribute %r" % (cls.__name__, name))
+        if isinstance(attr, property):
+            return retarget(attr.fget, extra, memo, shim)(self)
+        if isinstance(attr, staticmethod):
+            return retarget(attr.__func__, extra, memo, shim)
+        if isinstance(attr, classmethod):
+            return types.MethodType(retarget(attr.__func__, extra, memo, shim), cls)
+        if isinstance(attr, types.FunctionType) or hasattr(attr, "py_func"):
+            return types.MethodType(retarget(attr, extra, memo, shim), self)
+        return attr
+
+    def __setattr__(self, name, value):
+        object.__getattribute__(self, "_p")[1][name] = value
 
 
 def uninterp(name, dim, shadow=None):
